@@ -27,10 +27,11 @@ type c04RealSpec struct {
 	hooks   bool   // the shared context has before/after hooks, the tasks have before hooks
 	skipMid bool   // one more stage, with a false condition, between the root and one of the stages
 	inter   bool   // the tasks are declared interactive
+	same    bool   // ONE task (one name, one *task.Task) used by all k stages, told apart by the stage's env
 }
 
 func (s c04RealSpec) line() string {
-	return fmt.Sprintf("barrier k=%d ctx=%s root=%v hooks=%v skipMid=%v interactive=%v", s.k, s.ctx, s.root, s.hooks, s.skipMid, s.inter)
+	return fmt.Sprintf("barrier k=%d ctx=%s root=%v hooks=%v skipMid=%v interactive=%v one-task-in-all-stages=%v", s.k, s.ctx, s.root, s.hooks, s.skipMid, s.inter, s.same)
 }
 
 func c04RealCase(col *Collector, s c04RealSpec) {
@@ -59,8 +60,27 @@ func c04RealCase(col *Collector, s c04RealSpec) {
 		}
 		stages = append(stages, st)
 	}
+	var sharedT *task.Task
 	for i := 0; i < s.k; i++ {
 		name := fmt.Sprintf("b%d", i)
+		if s.same {
+			if sharedT == nil {
+				cmd := fmt.Sprintf("touch %s/in.$WHOAMI; i=0; while [ \"$(ls %s | wc -l)\" -lt %d ]; do i=$((i+1)); if [ $i -gt 300 ]; then exit 7; fi; sleep 0.02; done",
+					dir, dir, s.k)
+				sharedT = task.FromCommands(cmd)
+				sharedT.Name = "meet"
+				sharedT.Interactive = s.inter
+				if s.ctx == "shared" || s.ctx == "mixed" {
+					sharedT.Context = "shared"
+				}
+			}
+			st := &scheduler.Stage{Name: name, Task: sharedT, Env: variables.FromMap(map[string]string{"WHOAMI": name})}
+			if s.root {
+				st.DependsOn = []string{"root"}
+			}
+			stages = append(stages, st)
+			continue
+		}
 		// announce, then wait (at most ~6s) until all k announcements exist
 		cmd := fmt.Sprintf("touch %s/in.%s; i=0; while [ \"$(ls %s | wc -l)\" -lt %d ]; do i=$((i+1)); if [ $i -gt 300 ]; then exit 7; fi; sleep 0.02; done",
 			dir, name, dir, s.k)
@@ -139,12 +159,14 @@ func runC04Real(col *Collector, tier string, seed int64) {
 		}
 	}
 	specs = append(specs, c04RealSpec{k: 3, ctx: "none", inter: true}, c04RealSpec{k: 2, ctx: "shared", inter: true, hooks: true})
+	// one task used by every stage (a normal configuration: the stages differ in their env / variables)
+	specs = append(specs, c04RealSpec{k: 2, ctx: "none", same: true}, c04RealSpec{k: 4, ctx: "shared", same: true, root: true}, c04RealSpec{k: 3, ctx: "none", same: true, inter: true})
 	// wider than the number of CPUs: nothing may tie the number of simultaneous commands to it
 	specs = append(specs, c04RealSpec{k: wide, ctx: "none", root: true}, c04RealSpec{k: wide, ctx: "shared", hooks: true})
 	if tier == "thorough" {
 		for i := 0; i < 40; i++ {
 			specs = append(specs, c04RealSpec{k: 2 + rng.Intn(wide+4), ctx: []string{"none", "shared", "own", "mixed"}[rng.Intn(4)],
-				root: rng.Intn(2) == 0, hooks: rng.Intn(2) == 0, skipMid: rng.Intn(2) == 0})
+				root: rng.Intn(2) == 0, hooks: rng.Intn(2) == 0, skipMid: rng.Intn(2) == 0, same: rng.Intn(4) == 0})
 		}
 	}
 	// one at a time: each case needs its k commands to be scheduled together
